@@ -146,7 +146,12 @@ fn grow<const K: usize>(rng: &mut Rng, t: &mut AffTree<K>, p: &TreeParams, pal: 
     let terminal = depth >= p.max_depth || rng.chance(1 + depth as u64, if pal.is_empty() { 6 } else { 10 });
     if terminal {
         let f = if pal.is_empty() { rand_aff(rng, p.out_dim, p.in_dim) } else { rng.pick(pal).clone() };
-        t.add_child_node(parent, label, f).unwrap();
+        // both spellings of the node constructor (`add_terminal` is `add_child_node` by another name)
+        if rng.chance(1, 2) {
+            t.add_terminal(parent, label, f).unwrap();
+        } else {
+            t.add_child_node(parent, label, f).unwrap();
+        }
     } else {
         let rows = 1 + rng.below(log2_floor(K));
         let hint = t.tree.node_value(parent).unwrap().aff.clone();
@@ -164,7 +169,8 @@ fn grow<const K: usize>(rng: &mut Rng, t: &mut AffTree<K>, p: &TreeParams, pal: 
                 }
             }
         }
-        let idx = t.add_child_node(parent, label, f).unwrap();
+        // `add_decision` checks the number of rows against K and is `add_child_node` otherwise
+        let idx = if rng.chance(1, 2) { t.add_decision(parent, label, f).unwrap() } else { t.add_child_node(parent, label, f).unwrap() };
         grow_children(rng, t, p, pal, idx, rows, depth);
     }
 }
